@@ -187,10 +187,16 @@ class Model():
         An asset matching the name if it exists in the model.
         """
 
+        if _contains(self.assets, asset):
+            raise ValueError(
+                f'Asset "{asset.name}" is already part of model "{self.name}".'
+            )
+
         # Set asset ID and check for duplicates
-        asset.id = asset_id if asset_id is not None else self.next_id
-        if asset.id in self.asset_ids:
+        new_asset_id = asset_id if asset_id is not None else self.next_id
+        if new_asset_id in self.asset_ids:
             raise ValueError(f'Asset index {asset_id} already in use.')
+        asset.id = new_asset_id
 
         asset.associations = []
 
